@@ -184,6 +184,29 @@ func main() {
 	// 8. an out-of-range choice in a prefix is reported, not ignored
 	r3 := vsched.Replay(vsched.Config{P: 1, Preempt: all}, []int{9}, racy)
 	expect("out-of-range replay choice is a hard error", r3.ReplayEr != "", "no error reported")
+	// 9. an environment event that passes scheduling points (statement steps, a channel send) while the thread in whose
+	// context it runs is parked in a select: the parked thread is resumed only when its select is really ready
+	ev := func() {
+		wake := make(chan int, 1)
+		got := -1
+		done := make([]bool, 1)
+		vsched.GoNamed("parked", func() {
+			c := vsched.CaseRecv[int](wake)
+			vsched.Select(false, c)
+			got = c.Val.(int)
+			done[0] = true
+		})
+		fired := false
+		vsched.Pseudo("event", nil, func() { vsched.Step(); vsched.Step(); fired = true })
+		vsched.GoNamed("waker", func() {
+			vsched.WaitFor("event", func() bool { return fired })
+			vsched.Send(wake, 5)
+		})
+		join(done)
+		x = got
+	}
+	o9, _, _ := explore(vsched.Config{P: 2, Preempt: all}, ev, func() string { return fmt.Sprint(x) })
+	expect("environment events are atomic and leave the parked thread's readiness alone", keys(o9) == "5", "outcomes %v", o9)
 	if failed > 0 {
 		fmt.Printf("selftest: %d FAILED\n", failed)
 		os.Exit(2)
